@@ -313,10 +313,35 @@ def _stream(rng, tier, n):
             for i in range(n)]
 
 
+def below_min_cases():
+    """TimestampEncoder on a batch in which ONE cell's year is below the column's fitted YEAR_RANGE[0] (by 1 and
+    by 50; a year above the range is an ordinary input and is drawn by gen_cell), for every NA strategy incl. none
+    and three batch shapes.  The cell itself is perturbed back into the range and the rows without it are
+    selected, so the per-cell clause is judged directly: a raise (the unchanged tree: known finding) OR every
+    other cell's embedding unchanged."""
+    rng = C.Rng(77)
+    out = []
+    for na in H.NA_ADMISSIBLE["timestamp"]:
+        for (B, ncols), below in zip([(2, 1), (3, 2), (4, 1)], [1, 50, 1]):
+            stats = [gen_stats(rng, "timestamp") for _ in range(ncols)]
+            feat = [[gen_cell(rng, "timestamp", stats[j], 0.0) for j in range(ncols)] for _ in range(B)]
+            r, j = rng.randrange(B), rng.randrange(ncols)
+            feat[r][j] = [stats[j]["YEAR_RANGE"][0] - below] + feat[r][j][1:]
+            back = [stats[j]["YEAR_RANGE"][0]] + feat[r][j][1:]
+            how = {"ctor": "kw", "tap": True, "names": False, "entry": "call", "move": None, "repr": "fresh"}
+            out.append({"kind": "enc", "how": how, "cls": "TimestampEncoder", "stype": "timestamp",
+                        "kw": {"out_size": 2}, "na": na, "post": None, "channels": 2, "f64": True, "stats": stats,
+                        "feat": feat, "ncols": ncols, "perts": [[r, j, back]],
+                        "sel": [i for i in range(B) if i != r], "stats_pert": None, "params": "noise",
+                        "seed": 1000 + len(out)})
+    return out
+
+
 def required_cases():
     """The deterministic stream every requirement of sanity() is judged on: the full rejection table plus
     encoder cases from an own constant seed -- the same in both tiers and under every VERIF_SEED."""
-    return [dict(c, required=True) for c in reject_cases() + _stream(C.Rng(REQUIRED_SEED), "quick", 330)]
+    return [dict(c, required=True)
+            for c in reject_cases() + below_min_cases() + _stream(C.Rng(REQUIRED_SEED), "quick", 320)]
 
 
 def generate(rng, tier):
